@@ -660,6 +660,43 @@ func c13Body(r *vlib.Run) int {
 				good = false
 			}
 		}
+		// a file vanishes (rotated away) while its read is still queued behind the limit, for longer than any periodic
+		// check, and comes back: a read without a slot stays a read without a slot
+		if good && hi%3 != 0 {
+			mode, lim := "tail", tailL
+			if hi%3 == 2 {
+				mode, lim = "cat", catL
+			}
+			kind := mode
+			for liveCount(kind) < lim+2 {
+				open(mode)
+			}
+			good = quiesce()
+			var queued *c13Session
+			for _, s := range sessions {
+				if s.live && (s.mode == "tail") == (mode == "tail") && !isOpenInServer(s) {
+					queued = s
+				}
+			}
+			if good && queued != nil {
+				away := queued.file + ".rotated"
+				os.Rename(queued.file, away)
+				hist = append(hist, fmt.Sprintf("vanish(%s#%d, while queued, 4 s)", queued.mode, queued.id))
+				time.Sleep(4 * time.Second)
+				os.Rename(away, queued.file)
+				hist = append(hist, fmt.Sprintf("back(%s#%d)", queued.mode, queued.id))
+				r.Count("queued_reads_whose_file_vanished_and_came_back", 1)
+				time.Sleep(3 * time.Second) // a follower's retry period
+				good = quiesce()
+			}
+			smu.Lock()
+			ol := overLimit
+			smu.Unlock()
+			if good && ol != "" {
+				fail("more-files-read-than-the-limit", map[string]interface{}{"observation": ol})
+				good = false
+			}
+		}
 		// end: cancel everything, all slots must come back (nothing open)
 		for _, s := range sessions {
 			if s.live {
